@@ -398,7 +398,7 @@ def prepare(tier, seed):
     global _CASES
     _CASES = None
     if tier == "quick":
-        return 1200
+        return 6000
     cases = []
     todo_all = []
     for cls in builtin_exceptions():
